@@ -11,6 +11,13 @@ from .net import SimNet
 from .tape import SchedTape
 
 
+class WorkBudgetExceeded(KeyboardInterrupt):
+    """A single callback emitted more packets than any legal amount of
+       input could justify: the endpoint is spinning.  KeyboardInterrupt
+       subclass so that neither asyncssh's `except Exception` nor asyncio's
+       callback wrapper swallows it."""
+
+
 class Sim:
     """One simulated world = one run"""
 
@@ -42,6 +49,10 @@ class Sim:
         self.pkts = {}
         self.on_packet = None
         self.escrow = {}
+        self.work_limit = 0           # packets one callback may emit (0=off)
+        self._work_step = -1
+        self._work_pkts = 0
+        self.spin = None
         self.kex_used = {}
         self.observers = []
 
@@ -55,6 +66,20 @@ class Sim:
 
         if len(self.trace) < self.trace_keep:
             self.trace.append(rec)
+
+    def count_sent_packet(self, label):
+        if self.step != self._work_step:
+            self._work_step = self.step
+            self._work_pkts = 0
+
+        self._work_pkts += 1
+
+        if self.work_limit and self._work_pkts > self.work_limit:
+            self.spin = '%s emitted more than %d packets from a single ' \
+                'callback (loop step %d)' % (label, self.work_limit,
+                                             self.step)
+            self._work_pkts = 0
+            raise WorkBudgetExceeded(self.spin)
 
     def digest(self):
         return self._digest.hexdigest()[:24]
@@ -236,6 +261,7 @@ class Sim:
                 t.cancel()
 
             self.max_iterations = loop.iterations + 200
+            self.work_limit = self.work_limit or 5000
             self.tape = SchedTape(replay=[])
             loop._stopping = False
             loop.quiescent = False
@@ -243,7 +269,7 @@ class Sim:
             if pending:
                 try:
                     loop.run_forever()
-                except Exception: # pylint: disable=broad-except
+                except (Exception, WorkBudgetExceeded): # pylint: disable=W0703
                     pass
 
             for t in pending:
